@@ -211,6 +211,145 @@ def u_finite(ctx, kind, form="const", phase="none"):
     ctx.check("no-division-by-zero", TRUE)
 
 
+# ---------------------------------------------------------------------------------------------------
+def s_contraction(ctx, shape, essential, k=1, q=0.5):
+    """(d-ii) One-feedback shapes: a solver-proved CONTRACTION lemma on the real sweeps.
+
+    X* : a fixed point of the real sweep (v* = F(X*), i* = G(F(X*), X*)) in which every series element drops at most 20 %.
+    Y  : an arbitrary iterate (currents >= 0);  X1 = T^w(Y), w = depth+1 real warm-up sweeps (every state the real loop
+         visits after its first w sweeps has this form, and the form is preserved by T).
+    Basin B(X): the voltages F(X) that the next sweep computes keep every series drop <= 30 %.
+    Lemma (solver, exact NRA):  B(X1)  =>  |x(T(X1)) - x*| <= q*|x(X1) - x*|  and  B(T(X1)),   x = the essential load current.
+    With the real initial iterate in B after warm-up (checked separately on the real _sys_init) the loop approaches X*
+    geometrically, so 10000 sweeps at rtol 1e-6 are ample (q = 0.5: < 40 sweeps) - that last arithmetic step is the only
+    part outside the solver."""
+    from ..shims import SymArr
+
+    sysobj, info, durations = sysh.build_system(ctx, shape)
+    sysobj._rel_update()
+    v0, i0, state0 = sysobj._sys_init("")
+    names = {nm: idx for nm, idx in sysobj._g.attrs["nodes"].items()}
+    n = len(v0)
+    depth = sysh.depth_of(shape)
+    src = shape["nodes"][0]["name"]
+    vo = info[src]["P"]["vo"]
+
+    def modest(v, frac):
+        cs = []
+        for nd in shape["nodes"]:
+            if nd["kind"] in spec.LOADS:
+                continue
+            idx = names[nd["name"]]
+            ps = info[nd["name"]]["parents"]
+            vin = vo if not ps else v[names[ps[0]]]
+            if nd["kind"] in ("Converter", "LinReg"):
+                cs.append(Gt(v[idx], 0.0))
+                continue
+            cs.append(And(Ge(v[idx], (1.0 - frac) * vin), Le(v[idx], vin), Gt(vin, 0.0)))
+        return And(*cs)
+
+    def sweep(v, i, st):
+        nv, nst = sysobj._fwd_prop(v, i, "", st)
+        ni = sysobj._back_prop(nv, i, "", st)
+        return nv, ni, nst
+
+    try:
+        # ---- fixed point with modest drops
+        vs, is_ = SymArr([0.0] * n), SymArr([0.0] * n)
+        for nm, idx in names.items():
+            vs[idx], is_[idx] = ctx.iter_real("v*[%s]" % nm), ctx.iter_real("i*[%s]" % nm)
+            ctx.assume(is_[idx] >= 0)
+        f1, g1, _ = sweep(vs, is_, state0)
+        for nm, idx in names.items():
+            ctx.assume(Eq(vs[idx], f1[idx]))
+            ctx.assume(Eq(is_[idx], g1[idx]))
+        ctx.assume(modest(vs, 0.2))
+        xs = is_[names[essential]]
+        ctx.assume(Gt(xs, 0.0))
+        # ---- arbitrary iterate, warm-up
+        v, i = SymArr([0.0] * n), SymArr([0.0] * n)
+        for nm, idx in names.items():
+            v[idx], i[idx] = ctx.iter_real("v[%s]" % nm), ctx.iter_real("i[%s]" % nm)
+            ctx.assume(i[idx] >= 0)
+        st = state0
+        for _ in range(depth + 1):
+            v, i, st = sweep(v, i, st)
+            ctx.assume(modest(v, 0.3))  # the warm-up itself stays inside the basin
+        x1 = i[names[essential]]
+        nv, ni, nst = sweep(v, i, st)
+        ctx.assume(modest(nv, 0.3))     # B(X1)
+        x2 = ni[names[essential]]
+        nv2, ni2, _ = sweep(nv, ni, nst)
+    except ValueError as e:
+        if "Unstable" in str(e):
+            ctx.note("unstable-outside-basin")
+            from ..core import Skip
+
+            raise Skip("polarity lost: outside the basin")
+        raise
+    ctx.cover("swept")
+    ctx.check("essential-current-error-halves", Le(Abs(x2 - xs), q * Abs(x1 - xs)))
+    ctx.check("iterate-stays-in-basin", modest(nv2, 0.3))
+
+
+def s_basin_entry(ctx, shape):
+    """The REAL initial iterate enters the basin: after depth+1 real sweeps from the real _sys_init, every series drop
+    is <= 30 %, provided a modest-drop (<= 20 %) steady state exists."""
+    from ..shims import SymArr
+
+    sysobj, info, durations = sysh.build_system(ctx, shape)
+    sysobj._rel_update()
+    v, i, st = sysobj._sys_init("")
+    names = {nm: idx for nm, idx in sysobj._g.attrs["nodes"].items()}
+    src = shape["nodes"][0]["name"]
+    vo = info[src]["P"]["vo"]
+    n = len(v)
+    ctx.cover("swept")
+    # existence of the modest steady state
+    vs, is_ = SymArr([0.0] * n), SymArr([0.0] * n)
+    for nm, idx in names.items():
+        vs[idx], is_[idx] = ctx.iter_real("v*[%s]" % nm), ctx.iter_real("i*[%s]" % nm)
+        ctx.assume(is_[idx] >= 0)
+    try:
+        f1, s1 = sysobj._fwd_prop(vs, is_, "", st)
+    except ValueError as e:
+        if "Unstable" in str(e):
+            from ..core import Skip
+
+            raise Skip("no polarity-keeping fixed point on this path")
+        raise
+    g1 = sysobj._back_prop(f1, is_, "", st)
+    for nm, idx in names.items():
+        ctx.assume(Eq(vs[idx], f1[idx]))
+        ctx.assume(Eq(is_[idx], g1[idx]))
+    for nd in shape["nodes"]:
+        if nd["kind"] in spec.LOADS or nd["kind"] in ("Converter", "LinReg"):
+            continue
+        idx = names[nd["name"]]
+        ps = info[nd["name"]]["parents"]
+        vin = vo if not ps else vs[names[ps[0]]]
+        ctx.assume(And(Ge(vs[idx], 0.8 * vin), Gt(vin, 0.0)))
+    depth = sysh.depth_of(shape)
+    for k in range(depth + 2):
+        try:
+            nv, nst = sysobj._fwd_prop(v, i, "", st)
+        except ValueError as e:
+            if "Unstable" in str(e):
+                ctx.fail("real-start-never-loses-polarity", info={"sweep": k + 1})
+                return
+            raise
+        ni = sysobj._back_prop(nv, i, "", st)
+        v, i, st = nv, ni, nst
+        for nd in shape["nodes"]:
+            if nd["kind"] in spec.LOADS or nd["kind"] in ("Converter", "LinReg"):
+                continue
+            idx = names[nd["name"]]
+            ps = info[nd["name"]]["parents"]
+            vin = vo if not ps else v[names[ps[0]]]
+            ctx.check("real-start-stays-in-basin", Implies(Gt(vin, 0.0), And(Ge(v[idx], 0.7 * vin), Le(v[idx], vin))), info={"sweep": k + 1, "node": nd["name"]})
+
+
+
 META = dict(M1)
 META.update({
     "explanation": "(a) the REAL _solve loop (numpy.allclose as its documented tolerance predicate, symbolic vtol/itol) run for maxiter in 0..2 from an "
@@ -218,12 +357,15 @@ META.update({
                    "prove that the last compared pair passes the predicate with the requested tolerances, that earlier ones failed, that the table reports the "
                    "tested iterate, and on every raising path that maxiter+1 tests failed; (b) no law can divide by zero for accepted parameters; "
                    "(c) exact fixed points WITHOUT the polarity assumption: no returned state may invert/amplify across a passive series element; "
-                   "(d) feed-forward trees: RuntimeError infeasible with maxiter = 2*depth+2 from the real initial iterate.",
+                   "(d-i) feed-forward trees: RuntimeError infeasible with maxiter = 2*depth+2 from the real initial iterate; (d-ii) two one-feedback shapes: "
+                   "solver-proved contraction lemma on the real sweeps (error of the load current halves per sweep inside the <=30 % drop basin, basin "
+                   "invariant, real start enters the basin).",
     "functions": ["system.System._solve 809-827", "system.System.solve 924-928", "system.System._fwd_prop/_back_prop/_sys_init",
                   "components.*._solv_outp_volt (polarity guards)", "components.*._solv_inp_curr/_solv_pwr_loss"],
     "bounds": "(a) maxiter in {0,1,2}, shapes <= 3 nodes, vtol/itol in (0,0.01]; (c) curated shapes <= 4 nodes; (d-i) feed-forward shapes <= 5 nodes",
     "outside": "liveness for trees with series-resistance feedback (unbounded iteration of a nonlinear map is not a bounded SMT question; the "
-               "contraction argument of DESIGN 4/C03(d-ii) is not built); binary64 effects; maxiter > 2 in (a) (the loop body is identical per sweep)",
+               "contraction lemma (d-ii) is proved for two one-feedback shapes only: Source-rs -> PLoad and Source -> RLoss -> PLoad); binary64 effects; "
+               "maxiter > 2 in (a) (the loop body is identical per sweep)",
 })
 
 
@@ -272,6 +414,17 @@ def instances(tier):
     }
     for sid, sh in ff.items():
         out.append(Instance("C03", "c03:s_feedforward", dict(shape=sh), name="D/" + sid, uf=False, cover=["converged"], weight=10))
+    cshapes = {
+        "src-rs-pload": (S(N("S", "Source"), N("L", "PLoad", "S", only=())), "L", 1),
+        "rloss-pload": (S(N("S", "Source", only=()), N("R", "RLoss", "S", only=()), N("L", "PLoad", "R", only=())), "L", 1),
+        # a third shape (Source -> PSwitch -> Converter -> PLoad) was tried: the exact NRA query over 4 nested warm-up sweeps did not
+        # finish within 15 min, so it is NOT claimed
+    }
+    for sid, (sh, ess, k) in cshapes.items():
+        out.append(Instance("C03", "c03:s_contraction", dict(shape=sh, essential=ess, k=k), name="D2/contraction/" + sid, uf=False,
+                            cover=["swept"], weight=40, time_limit=1200))
+        out.append(Instance("C03", "c03:s_basin_entry", dict(shape=sh), name="D2/basin-entry/" + sid, uf=False, cover=["swept"], weight=40,
+                            time_limit=1200))
     for kind in spec.KINDS:
         if kind == "PMux":
             continue
@@ -283,3 +436,5 @@ def instances(tier):
         if kind in TABLE_KEY:
             out.append(Instance("C03", "c03:u_finite", dict(kind=kind, form="t1x2"), cover=["evaluated"]))
     return out, META
+
+
